@@ -111,15 +111,15 @@ ADDENDA = {
  "C07": " Also: DHCPv4 wire-enum constants equal spec/constants.json.",
  "C08": " Also: no decoder makes memory reachable from a package-level variable part of the value it produces (decoded messages share nothing with each other).",
  "C09": " The repeated-ToBytes rule is interprocedural (helpers of the module are expanded at their call sites).",
- "C10": " Also: slice-typed Client state is never returned, stored or sent (accessors hand out copies); cancel pairing on every exit of send/SendAndRead (shared with C11). Filter rules are evaluated on the split graph, so nested ifs, && chains and switch cases are judged alike.",
- "C11": " Also: only the internal per-try deadline sentinel leads to another try; every other result of a try, including the context's error, is returned at once (shared with C12).",
- "C12": " Also: no path from the deadline edge to the next try avoids the doubling; every in-repo Logger.PrintMessage implementation writes nothing reachable from the message it prints (E3).",
+ "C10": " Also: slice-typed Client state is never returned, stored or sent (accessors hand out copies); cancel pairing on every exit of send/SendAndRead and cancel-by-identity (shared with C11; defect F10 repaired in 9686be8); the receive buffer is a constant >= 1500 bytes. Filter rules are evaluated on the split graph, so nested ifs, && chains and switch cases are judged alike.",
+ "C11": " Also: cancel removes only the entry this call registered (identity test; defect F10 found by this rule and repaired in 9686be8); the internal deadline sentinel is a distinct errors.New value. Also: only the internal per-try deadline sentinel leads to another try; every other result of a try, including the context's error, is returned at once (shared with C12).",
+ "C12": " Also: the internal deadline sentinel is a distinct errors.New value; in the constructor no field the retry driver reads is written after an option ran (defaults first). Also: no path from the deadline edge to the next try avoids the doubling; every in-repo Logger.PrintMessage implementation writes nothing reachable from the message it prints (E3).",
  "C13": " Also: the receive loops deliver messages that do not alias the per-datagram read buffer and decoded option values are exactly the bytes consumed for their code (shared with C10/C01); message-type constants equal spec/constants.json.",
  "C14": " Also: the decoder called per datagram returns a value sharing no memory with package-level variables.",
  "C15": " Also: decoded option values are append(previous value, consumed chunk) — a zero-length option stays nil, which 'copied when present' depends on; message-type constants equal spec/constants.json.",
  "C16": " Also: DHCPv6 message-type constants equal spec/constants.json.",
- "C17": " Also: string accessors return the decoded string or strings.TrimRight(s, NUL) of it; DHCPv4 option-code constants equal spec/constants.json.",
- "C18": " Also (K8): no 16-bit addition or subtraction has a checksum-derived operand outside the two summation routines (a plain add drops the end-around carry). isValid and the reader guards are judged on the split graph.",
+ "C17": " Also: an accessor's result derives only from its option lookup, constants and non-receiver parameters (K6); the shared string helper returns string(raw) unchanged. Also: string accessors return the decoded string or strings.TrimRight(s, NUL) of it; DHCPv4 option-code constants equal spec/constants.json.",
+ "C18": " Also (K9): header slices obtained from the Lexer stay valid (buffer capacity equals the bytes written, or every use precedes later growth). Also (K8): no 16-bit addition or subtraction has a checksum-derived operand outside the two summation routines (a plain add drops the end-around carry). isValid and the reader guards are judged on the split graph.",
  "C20": " Also: the clients' in-repo Logger.PrintMessage implementations write nothing reachable from the message they print.",
 }
 
